@@ -12,17 +12,20 @@ Tactic Notation "cnext" ident(t) ident(s1) ident(R) :=
 Ltac dcn R :=
   let R' := fresh "Rn" in let Es := fresh "Es" in
   pose proof R as (R' & Es);
-  destruct R' as [?Ri ?Rtw ?Rpk ?Rpk1 ?Rcur ?Rl ?Rnz ?Rmu ?Rz ?Rbi ?Rbm ?Rbl ?Reof ?Rrest].
+  destruct R' as [?Ri ?Rtw ?Rpk ?Rpk1 ?Rcur ?Rl ?Rnz ?Rmu Rz ?Rbi ?Rbm ?Rbl Reof Rrest];
+  clear Rz Reof Rrest.
+(* use every known "type <> 0" fact *)
+Ltac nzs := repeat match goal with Hnz : t_typ ?t <> 0, H : t_typ ?t <> 0 -> _ |- _ => specialize (H Hnz) end.
 Ltac tnz H Hnz := match type of H with t_typ ?t = _ =>
   assert (Hnz : t_typ t <> 0) by (rewrite H; vm_compute; intro; discriminate) end.
 (* branch on the type of an item: [if tis t X then _ else _] *)
-Ltac tcase t X E := unfold tis at 1; destruct (N.eqb_spec (t_typ t) X) as [E|E].
-Ltac cfin := cbn [cpost]; unfold kap in *;
+Ltac tcase t X E := unfold tis at 1; destruct (N.eqb_spec (t_typ t) X) as [E|E]; [|clear E].
+Ltac cfin := nzs; cbn [cpost]; unfold kap in *;
   split; [solve [auto]|split; [lia|cbn beta; repeat (apply conj); auto; try lia]].
-Ltac cerr := first [apply c_unexp_post; [solve [auto]|solve [auto]|unfold kap in *; lia]
+Ltac cerr := nzs; first [apply c_unexp_post; [solve [auto]|solve [auto]|unfold kap in *; lia]
                    |apply c_errorf_post; [solve [auto]|unfold kap in *; lia]].
 Tactic Notation "cexpect" ident(tk) ident(s1) ident(H) :=
-  eapply cpost_bind; [apply c_expect_post; [solve [auto]|vm_compute; intro; discriminate|unfold kap in *; lia]|];
+  nzs; eapply cpost_bind; [apply c_expect_post; [solve [auto]|vm_compute; intro; discriminate|unfold kap in *; lia]|];
   intros tk s1 ?Hi ?Hb H; cbn beta in H.
 Ltac nzc := vm_compute; intro; discriminate.
 
